@@ -237,7 +237,7 @@ def gen_history(rng, world, ifaces, classes, n_ops=20, flavours=("push", "verify
     key_pool = list(ifaces) + list(classes) + [0]
     look_pool = list(ifaces) + list(classes)
     nobj = len(world.get("objects", []))
-    w = {"register": 6, "unregister": 3, "subscribe": 4, "unsubscribe": 2, "rebuild": 0.3, "setregbases": 1 if rebase else 0,
+    w = {"register": 6, "unregister": 3, "subscribe": 4, "unsubscribe": 2, "rebuild": 0, "setregbases": 1 if rebase else 0,
          "lookup": 5, "lookup1": 2, "lookupAll": 2, "names": 1, "subscriptions": 3, "registered": 1,
          "subscribed": 1, "allRegistrations": 0.5, "allSubscriptions": 0.5,
          "queryAdapter": 2 if nobj else 0, "adapter_hook": 1 if nobj else 0,
